@@ -329,6 +329,10 @@ def placementSkip (time : Int) (p : PlacementS) (drop : Bool) : SimM (List SEven
       evs := evs ++ [← mkEvent ET.taskCancel time (tid := some ⟨t.g, c⟩)]
     if r.g.isCancelled then
       let rel ← notifyGraphCompletion t.g time
+      -- the release of the unlocked task graph is logged like the loader's task graphs
+      if let some t0 := rel.head? then
+        let ng ← getGraph t0.g
+        evs := evs ++ [← mkEvent ET.taskGraphRelease ng.releaseTime (graph := some t0.g)]
       for rt in rel do
         let x ← getTask rt
         evs := evs ++ [← mkEvent ET.taskRelease x.release (tid := some rt)]
@@ -634,7 +638,12 @@ def finishNotify (t : TaskId) (time : Int) : SimM Unit := do
   if let some e := r.err then throw e
   let mut released : List TaskId := r.released.map (fun n => ⟨t.g, n⟩)
   if r.g.isComplete then
-    released := released ++ (← notifyGraphCompletion t.g time)
+    let rel ← notifyGraphCompletion t.g time
+    released := released ++ rel
+    -- the release of the unlocked task graph is logged like the loader's task graphs
+    if let some t0 := rel.head? then
+      let ng ← getGraph t0.g
+      addEvent (← mkEvent ET.taskGraphRelease ng.releaseTime (graph := some t0.g))
   -- `event` is rebound by the loops of the source: the time of a release event is
   -- `max(task.release_time, <time of the event created just before>)`
   let mut lastTime := time
